@@ -1,6 +1,6 @@
 """C10 - indexing/slicing: single normalisation authority, read/write agreement, accessor tables, overflow-freedom."""
 import re
-from .core import (builds_error, CheckError, find_match, arm_region, pat_str, strip_ref, origins, only_when, pat_paths,
+from .core import (family_bodies, builds_error, CheckError, find_match, arm_region, pat_str, strip_ref, origins, only_when, pat_paths,
                    Registry, op_local, bool_switches)
 
 META = {
@@ -121,19 +121,21 @@ def run(F, rep, tier):
         if not F.has_fn(fn):
             rep.error('R10.1', 'anchor missing: %s' % fn)
             continue
-        b = F.body(fn)
         sites = []
-        for c in b.calls:
-            last = c.target.rsplit('::', 1)[-1]
-            g = c.callee.get('g') or ['']
-            if last in POS_METHODS and len(c.args) >= 2 and not ('HashMap' in g[0] or 'hash' in c.target.lower() or 'HashSet' in g[0]):
-                if last in ('get', 'get_mut', 'insert', 'remove', 'take', 'skip', 'nth') and not re.search(r'(Vec<|\[|String|str)', g[0]):
-                    continue
-                sites.append((c, c.args[1], last))
-        for bb, t in b.asserts():
-            if t[3] == 'BoundsCheck':
-                sites.append((None, t[4][1], 'bounds@%d' % bb))
-        for c, op, what in sites:
+        # the function and the private helpers split off from it (not the other entry points, not the normalisers themselves)
+        fam = [b_ for b_ in family_bodies(F, fn) if b_.path == fn or (b_.path not in fns and not re.search(r'pythonic_|clamped_|cyclic_index$|safe_index_inner$', b_.path))]
+        for b in fam:
+            for c in b.calls:
+                last = c.target.rsplit('::', 1)[-1]
+                g = c.callee.get('g') or ['']
+                if last in POS_METHODS and len(c.args) >= 2 and not ('HashMap' in g[0] or 'hash' in c.target.lower() or 'HashSet' in g[0]):
+                    if last in ('get', 'get_mut', 'insert', 'remove', 'take', 'skip', 'nth') and not re.search(r'(Vec<|\[|String|str)', g[0]):
+                        continue
+                    sites.append((b, c, c.args[1], last))
+            for bb, t in b.asserts():
+                if t[3] == 'BoundsCheck':
+                    sites.append((b, None, t[4][1], 'bounds@%d' % bb))
+        for b, c, op, what in sites:
             n1 += 1
             ok, bad = judge_position(b, op)
             where = c.loc() if c is not None else b.loc(int(what.split('@')[1]))
